@@ -156,6 +156,7 @@ class OsLogEvent:
     format_string: str = ''
     activity_identifier: int = 0
     parent_activity_identifier: int = 0
+    transition_activity_identifier: int = 0
     decomposed_message: Dict = field(default_factory=dict)
     trace_identifier: TraceIdentifier = None
     creator_activity_identifier: int = 0
